@@ -15,6 +15,7 @@ type Scope struct {
 	ElemK int  // reduced pool used for pairs / tuples of elements
 	Fuel  int  // nesting budget for recursive types
 	Text  bool // text/boundary biased leaves (GoString)
+	Wide  bool // wider leaf domains (collision search)
 }
 
 type poolKey struct {
@@ -79,6 +80,11 @@ func (p *pooler) build(t reflect.Type, fuel int) []Gen {
 		add(false, true)
 	case reflect.Int, reflect.Int8, reflect.Int16, reflect.Int32, reflect.Int64:
 		add(0, 1, -1)
+		if p.sc.Wide {
+			for i := 2; i <= 40; i++ {
+				add(i)
+			}
+		}
 		if p.sc.Text {
 			bits := uint(t.Bits())
 			min := int64(-1) << (bits - 1)
@@ -102,6 +108,9 @@ func (p *pooler) build(t reflect.Type, fuel int) []Gen {
 		add(complex(0, 0), complex(1, 0), complex(0, 1))
 	case reflect.String:
 		add("", "a", "b")
+		if p.sc.Wide {
+			add("Aa", "BB", "C#", "Ab", "BC", "aa", "bB")
+		}
 		if p.sc.Text {
 			add("q\"", "\n", "`", "\xff", "é€😀", "a\\b")
 		}
